@@ -22,6 +22,16 @@ static fiber_unbounded_sp_channel_t sc;
 static mpsc_fifo_node_t* umsg[MAXMSG];
 static spsc_node_t* smsg[MAXMSG];
 
+
+/* fiber_t.scratch is shared by several mechanisms ("be sure mechanisms do not conflict"): an
+ * fd wait ended by close() really leaves (void*)-1 == FIBER_SIGNAL_READY_TO_WAKE there.  So
+ * before every wait the harness dirties the waiting fiber's own scratch with that value, by a
+ * store the instrumentation does not see (no event, no scheduling point): a wait that relied
+ * on scratch being NULL on entry would be woken before its context is saved. */
+VH_NOINSTR static void dirty_own_scratch(void) {
+  fiber_manager_get()->current_fiber->scratch = (void*)(intptr_t)-1;
+}
+
 static void do_op(int t, const char* op) {
   switch (op[0]) {
     case 's': {
@@ -44,6 +54,7 @@ static void do_op(int t, const char* op) {
     case 'r': {
       long v;
       vr_note("call pop");
+      dirty_own_scratch(); /* receive may wait on the ready_signal */
       if (kind == 'b') {
         v = (long)fiber_bounded_channel_receive(bc);
       } else if (kind == 'u') {
@@ -70,15 +81,18 @@ VH_NOINSTR int main(int argc, char** argv) {
   int p2 = atoi(argv[3]);
   vh_parse(argv[4]);
   fiber_manager_init(k);
+  VH_DIRTY(sig);
   fiber_signal_init(&sig);
   vr_reg(&sig.waiter, 8, "waiter");
   if (kind == 'b') {
+    vh_dirty_heap();
     bc = fiber_bounded_channel_create(p2, &sig);
     vr_reg(&bc->high, 8, "high");
     vr_reg(&bc->low, 8, "low");
     for (uint32_t i = 0; i < bc->size; i++) vr_reg(&bc->buffer[i], 8, "buf%u", i);
     vr_note("init chan b %u", bc->size);
   } else if (kind == 'u') {
+    VH_DIRTY(uc);
     fiber_unbounded_channel_init(&uc, &sig);
     vr_reg((void*)&uc.queue.head, 8, "head");
     vr_reg(&uc.queue.tail, 8, "tail");
@@ -93,6 +107,7 @@ VH_NOINSTR int main(int argc, char** argv) {
     }
     vr_note("init chan u 0");
   } else {
+    VH_DIRTY(sc);
     fiber_unbounded_sp_channel_init(&sc, &sig);
     vr_reg(&sc.queue.head, 8, "head");
     vr_reg(&sc.queue.tail, 8, "tail");
